@@ -68,7 +68,7 @@ PROPS: dict = {
             "that already holds the outputs of an earlier run; then re-run to completion with same / changed-threshold / fewer-files "
             "parameters and compare with a fresh-directory run; stale-directory stream: earlier run with more files and cleanup off",
             "proof_modules": ["BBProps.C14", "BBProofs.Multiround", "BBProofs.Names"]},
-    "C17": {"suites": [props_tree.c17, props_tree.c17_objects], "rule": RULE_TREE + "; configuration stream: constructor with names / merge-function objects / "
+    "C17": {"suites": [props_tree.c17, props_tree.c17_objects, gen.suite_gen({"config", "dispatch"})], "rule": RULE_TREE + "; configuration stream: constructor with names / merge-function objects / "
             "no criterion x tolerance given or not, set_merge with every subset of its arguments, setters, reset; S-C17-OBJECTS: estimators "
             "holding merge-function objects the model does not distinguish (adaptive=False, other n_max/decay, a user subclass inheriting a "
             "built-in name), then set_merge by that name vs the constructor route (attributes and clustering of a probe set); a chosen "
